@@ -85,20 +85,27 @@ def udpMethods : List (String × List String) :=
    ("SetReadDeadline", ["err"]), ("SetWriteDeadline", ["err"]),
    ("LocalAddr", ["addr"]), ("RemoteAddr", ["addr"])]
 
-theorem len0 {α} {l : List α} (h : l.length = [].length) : l = [] := List.length_eq_zero_iff.mp h
+theorem len0 {α} {l : List α} (h : l.length = ([] : List String).length) : l = [] :=
+  List.length_eq_zero_iff.mp h
 theorem len1 {α} {l : List α} {x : String} (h : l.length = [x].length) : ∃ a, l = [a] :=
   List.length_eq_one_iff.mp h
 theorem len2 {α} {l : List α} {x y : String} (h : l.length = [x, y].length) : ∃ a b, l = [a, b] := by
   match l, h with
   | [a, b], _ => exact ⟨a, b, rfl⟩
 
+/-- a loop-free statement: the run with any fuel ≥ depth is the run with fuel = depth = `d` -/
+theorem exec_at (o : Oracle) (s : GStmt) (env : Env) (d fuel : Nat) (hl : loopFree s = true)
+    (hd : depth s = d) (hf : depth s ≤ fuel) : exec o fuel s env = exec o d s env := by
+  subst hd
+  exact exec_loopFree o s _ fuel env hl (Nat.le_refl _) hf
+
 /-- one run of a pass-through, both cases -/
 syntax "fwd_run" " [" Lean.Parser.Tactic.simpLemma,* "]" : tactic
 macro_rules
   | `(tactic| fwd_run [$ls,*]) => `(tactic|
     (refine ⟨fun h => ?_, fun h => ?_⟩ <;>
-      (rw [exec_loopFree _ _ _ _ _ (by decide) (Nat.le_refl _) (by assumption)]
-       go_eval [$ls,*, h, write_def, depth, Nat.max_self, Nat.reduceAdd])))
+      (rw [exec_at _ _ _ 2 _ (by decide) (by decide) (by assumption)]
+       go_eval [$ls,*, h, write_def])))
 
 theorem pt_tls_Read : PassThrough gs_tlsSockWrapper_Read "tsw.sock.Read" ["buf"] ["rlen", "err"] := by
   intro o env0 args rs fuel ha hr hf
@@ -207,4 +214,425 @@ theorem C07W_udp_forwards : ∀ m ∈ udpMethods, Forwards "udpSockWrapper" "usw
   · exact ⟨_, _, by rfl, by decide +kernel, by decide, pt_udp_LocalAddr⟩
   · exact ⟨_, _, by rfl, by decide +kernel, by decide, pt_udp_RemoteAddr⟩
 
+/-! ### sensitivity of the forwarding theorems -/
+
+/-- an oracle that answers `SetDeadline` on the socket and NOTHING else: the generated
+    `tlsSockWrapper.SetDeadline` returns; the previously seeded slip (forwarding to
+    `SetReadDeadline`, derived from the generated term by `renameCallee`) stops at the foreign
+    call, so `PassThrough … "tsw.sock.SetDeadline" …` is false for it -/
+def onlySetDeadline : Oracle := fun f _ => if f = "tsw.sock.SetDeadline" then some [.sym "nil"] else none
+
+example : exec onlySetDeadline 2 gs_tlsSockWrapper_SetDeadline [("deadline", .sym "D")] =
+    ⟨[("err", .sym "nil"), ("deadline", .sym "D")], .returned, [("tsw.sock.SetDeadline", [.sym "D"])]⟩ := by
+  decide +kernel
+example : exec onlySetDeadline 2
+      (renameCallee "tsw.sock.SetDeadline" "tsw.sock.SetReadDeadline" gs_tlsSockWrapper_SetDeadline)
+      [("deadline", .sym "D")] =
+    ⟨[("deadline", .sym "D")], .stoppedAt "tsw.sock.SetReadDeadline" [.sym "D"], []⟩ := by
+  decide +kernel
+
+/-- the slip falsifies the theorem: the variant is NOT a pass-through to `tsw.sock.SetDeadline` -/
+theorem C07W_sensitive_setDeadline_slip :
+    ¬ PassThrough
+      (renameCallee "tsw.sock.SetDeadline" "tsw.sock.SetReadDeadline" gs_tlsSockWrapper_SetDeadline)
+      "tsw.sock.SetDeadline" ["deadline"] ["err"] := by
+  intro h
+  have h1 := (h onlySetDeadline [] [.sym "D"] [.sym "nil"] 2 rfl rfl (by decide)).1 rfl
+  revert h1
+  decide +kernel
+
+/-- with an oracle that answers everything the slip is visible in the call log -/
+example : (exec (fun _ _ => some [.sym "nil"]) 2
+      (renameCallee "tsw.sock.SetDeadline" "tsw.sock.SetReadDeadline" gs_tlsSockWrapper_SetDeadline)
+      [("deadline", .sym "D")]).calls = [("tsw.sock.SetReadDeadline", [.sym "D"])] := by
+  decide +kernel
+/-- a variant that drops the argument (passes another variable) is told apart as well -/
+example : (exec (fun _ _ => some [.sym "nil"]) 2
+      (.seq (.bindCall ["err"] "tsw.sock.SetDeadline" [(.var "other" .other)]) .ret)
+      [("deadline", .sym "D"), ("other", .sym "X")]).calls ≠ [("tsw.sock.SetDeadline", [.sym "D"])] := by
+  decide +kernel
+
+/-- the same slip in `udpSockWrapper.SetDeadline` -/
+theorem C07W_sensitive_setDeadline_slip_udp :
+    ¬ PassThrough
+      (renameCallee "usw.sock.SetDeadline" "usw.sock.SetReadDeadline" gs_udpSockWrapper_SetDeadline)
+      "usw.sock.SetDeadline" ["deadline"] ["err"] := by
+  intro h
+  have h1 := (h (fun f _ => if f = "usw.sock.SetDeadline" then some [.sym "nil"] else none)
+    [] [.sym "D"] [.sym "nil"] 2 rfl rfl (by decide)).1 rfl
+  revert h1
+  decide +kernel
+
+/-! ### `tlsSockWrapper.Write` -/
+
+/-- environment of `tlsSockWrapper.Write`: the parameter, and the boolean leaf `os.IsTimeout(err)`
+    (its value for the error the inner write returns) -/
+def tlsWriteEnv (buf : Val) (isTimeout : Bool) : Env :=
+  [("buf", buf), ("os.IsTimeout(err)", .ofBool isTimeout)]
+
+/-- `tlsSockWrapper.Write(buf)`: ONE `tsw.sock.Write [buf]`; then `tsw.sock.Close []` iff the inner
+    write returned a non-nil error `e` for which `os.IsTimeout(e)` holds (`isTimeout` is ANY
+    function of the returned error); in every case the inner results `(w, e)` are returned as
+    they are, and the result of `Close` is dropped. -/
+theorem C07W_tls_write (o : Oracle) (buf w : Val) (e : String) (closeRes : List Val)
+    (isTimeout : String → Bool) (fuel : Nat) (hf : depth gs_tlsSockWrapper_Write ≤ fuel)
+    (hW : o "tsw.sock.Write" [buf] = some [w, .sym e])
+    (hC : o "tsw.sock.Close" [] = some closeRes) :
+    exec o fuel gs_tlsSockWrapper_Write (tlsWriteEnv buf (isTimeout e)) =
+      ⟨("err", .sym e) :: ("wlen", w) :: tlsWriteEnv buf (isTimeout e), .returned,
+        ("tsw.sock.Write", [buf]) ::
+          (if e ≠ "nil" ∧ isTimeout e = true then [("tsw.sock.Close", [])] else [])⟩ := by
+  rw [exec_at _ _ _ 4 _ (by decide) (by decide) hf]
+  by_cases hn : e = "nil"
+  · subst hn
+    go_eval [gs_tlsSockWrapper_Write, tlsWriteEnv, hW, hC, write_def, ne_eq, not_true_eq_false, decide_false, false_and,
+      Bool.false_and]
+  · cases ht : isTimeout e
+    · go_eval [gs_tlsSockWrapper_Write, tlsWriteEnv, hW, hC, write_def, ne_eq, hn, not_false_eq_true, decide_true, ht]
+    · go_eval [gs_tlsSockWrapper_Write, tlsWriteEnv, hW, hC, write_def, ne_eq, hn, not_false_eq_true, decide_true, ht]
+
+/-- the `Close` is not needed to answer when it is not called: for a successful write and for a
+    non-timeout error the run is the same against an oracle that answers only the write -/
+theorem C07W_tls_write_no_close (o : Oracle) (buf w : Val) (e : String)
+    (isTimeout : String → Bool) (fuel : Nat) (hf : depth gs_tlsSockWrapper_Write ≤ fuel)
+    (hW : o "tsw.sock.Write" [buf] = some [w, .sym e])
+    (hne : e = "nil" ∨ isTimeout e = false) :
+    exec o fuel gs_tlsSockWrapper_Write (tlsWriteEnv buf (isTimeout e)) =
+      ⟨("err", .sym e) :: ("wlen", w) :: tlsWriteEnv buf (isTimeout e), .returned,
+        [("tsw.sock.Write", [buf])]⟩ := by
+  rw [exec_at _ _ _ 4 _ (by decide) (by decide) hf]
+  by_cases hn : e = "nil"
+  · subst hn
+    go_eval [gs_tlsSockWrapper_Write, tlsWriteEnv, hW, write_def, ne_eq, not_true_eq_false, decide_false, false_and,
+      Bool.false_and]
+  · have ht : isTimeout e = false := hne.resolve_left hn
+    go_eval [gs_tlsSockWrapper_Write, tlsWriteEnv, hW, write_def, ne_eq, hn, not_false_eq_true, decide_true, ht]
+
+/-! ## 2. `serialPortWrapper`: the emulated deadline -/
+
+/-- environment of `serialPortWrapper.Read`: the parameter; the boolean leaf
+    `time.Now().After(spw.deadline)`; `serial.ErrTimeout` bound to its own symbol; the named results
+    at their zero values -/
+def serialReadEnv (late : Bool) (rx : Val) : Env :=
+  [("rxbuf", rx), ("time.Now().After(spw.deadline)", .ofBool late),
+   ("serial.ErrTimeout", .sym "serial.ErrTimeout"), ("cnt", .int 0), ("err", .sym "nil")]
+
+/-- `(cnt, err)` as returned -/
+def serialReadResult (r : Res) : Val × Val := (Env.read r.env "cnt", Env.read r.env "err")
+
+/-- entered after the deadline: for EVERY oracle (also one that answers nothing) the run returns at
+    once with `err = ErrRequestTimedOut`, `cnt` untouched (zero), and NO call was made -/
+theorem serial_read_late (o : Oracle) (rx : Val) (fuel : Nat) (hf : depth gs_serialPortWrapper_Read ≤ fuel) :
+    exec o fuel gs_serialPortWrapper_Read (serialReadEnv true rx) =
+      ⟨("err", .sym "ErrRequestTimedOut") :: serialReadEnv true rx, .returned, []⟩ := by
+  rw [exec_at _ _ _ 5 _ (by decide) (by decide) hf]
+  go_eval [gs_serialPortWrapper_Read, serialReadEnv, write_def]
+
+/-- entered not after the deadline: exactly one `spw.port.Read [rxbuf]`; its count is returned; its
+    error is returned unless it is `serial.ErrTimeout`, which becomes `nil` -/
+theorem serial_read_early (o : Oracle) (rx cnt : Val) (e : String) (fuel : Nat)
+    (hf : depth gs_serialPortWrapper_Read ≤ fuel)
+    (hR : o "spw.port.Read" [rx] = some [cnt, .sym e]) :
+    exec o fuel gs_serialPortWrapper_Read (serialReadEnv false rx) =
+      ⟨(if e = "serial.ErrTimeout" then [("err", .sym "nil")] else []) ++
+          ("err", .sym e) :: ("cnt", cnt) :: serialReadEnv false rx,
+        .returned, [("spw.port.Read", [rx])]⟩ := by
+  rw [exec_at _ _ _ 5 _ (by decide) (by decide) hf]
+  by_cases hn : e = "nil"
+  · subst hn
+    go_eval [gs_serialPortWrapper_Read, serialReadEnv, hR, write_def, ne_eq, not_true_eq_false,
+      not_false_eq_true, decide_true, decide_false]
+  · by_cases ht : e = "serial.ErrTimeout"
+    · subst ht
+      go_eval [gs_serialPortWrapper_Read, serialReadEnv, hR, write_def, ne_eq, not_true_eq_false,
+        not_false_eq_true, decide_true, decide_false]
+    · go_eval [gs_serialPortWrapper_Read, serialReadEnv, hR, write_def, ne_eq, hn, ht,
+        not_false_eq_true, decide_true, decide_false]
+
+/-- if the port does not answer, the run stops AT `spw.port.Read [rxbuf]` (first and only call) -/
+theorem serial_read_stops (o : Oracle) (rx : Val) (fuel : Nat)
+    (hf : depth gs_serialPortWrapper_Read ≤ fuel) (hR : o "spw.port.Read" [rx] = none) :
+    exec o fuel gs_serialPortWrapper_Read (serialReadEnv false rx) =
+      ⟨serialReadEnv false rx, .stoppedAt "spw.port.Read" [rx], []⟩ := by
+  rw [exec_at _ _ _ 5 _ (by decide) (by decide) hf]
+  go_eval [gs_serialPortWrapper_Read, serialReadEnv, hR, write_def]
+
+/-- `serialPortWrapper.Read(rxbuf)`, all cases.
+    (1) `time.Now().After(spw.deadline)`: `(0, ErrRequestTimedOut)` WITHOUT calling `spw.port.Read`
+        (for every oracle);
+    (2) otherwise exactly one `spw.port.Read [rxbuf]`, answered `(cnt, e)`: the result is
+        `(cnt, nil)` if `e` is `serial.ErrTimeout`, `(cnt, e)` otherwise (`nil` included). -/
+theorem C07W_serial_read (o : Oracle) (rx cnt : Val) (e : String) (fuel : Nat)
+    (hf : depth gs_serialPortWrapper_Read ≤ fuel) :
+    (let r := exec o fuel gs_serialPortWrapper_Read (serialReadEnv true rx)
+     r.how = .returned ∧ r.calls = [] ∧
+       serialReadResult r = (.int 0, .sym "ErrRequestTimedOut")) ∧
+    (o "spw.port.Read" [rx] = some [cnt, .sym e] →
+     let r := exec o fuel gs_serialPortWrapper_Read (serialReadEnv false rx)
+     r.how = .returned ∧ r.calls = [("spw.port.Read", [rx])] ∧
+       serialReadResult r = (cnt, .sym (if e = "serial.ErrTimeout" then "nil" else e))) := by
+  refine ⟨?_, fun hR => ?_⟩
+  · rw [serial_read_late o rx fuel hf]
+    exact ⟨rfl, rfl, rfl⟩
+  · rw [serial_read_early o rx cnt e fuel hf hR]
+    refine ⟨rfl, rfl, ?_⟩
+    by_cases ht : e = "serial.ErrTimeout"
+    · simp only [ht, if_true]; rfl
+    · simp only [ht, if_false]; rfl
+
+/-- `serialPortWrapper.SetDeadline(deadline)` ONLY stores its argument in `spw.deadline`: for every
+    oracle the run makes no call at all (the term contains none), binds nothing else, and returns
+    with `err` untouched (nil) -/
+theorem C07W_serial_setDeadline (o : Oracle) (env0 : Env) (d : Val) (fuel : Nat)
+    (hf : depth gs_serialPortWrapper_SetDeadline ≤ fuel) :
+    exec o fuel gs_serialPortWrapper_SetDeadline (("deadline", d) :: env0) =
+      ⟨("spw.deadline", d) :: ("deadline", d) :: env0, .returned, []⟩ ∧
+    bindCalls gs_serialPortWrapper_SetDeadline = [] ∧
+    stmtTargets gs_serialPortWrapper_SetDeadline = ["spw.deadline"] := by
+  refine ⟨?_, rfl, by decide⟩
+  rw [exec_at _ _ _ 2 _ (by decide) (by decide) hf]
+  go_eval [gs_serialPortWrapper_SetDeadline, write_def]
+
+theorem pt_serial_Write :
+    PassThrough gs_serialPortWrapper_Write "spw.port.Write" ["txbuf"] ["cnt", "err"] := by
+  intro o env0 args rs fuel ha hr hf
+  obtain ⟨a, rfl⟩ := len1 ha
+  obtain ⟨r1, r2, rfl⟩ := len2 hr
+  fwd_run [gs_serialPortWrapper_Write]
+theorem pt_serial_Close : PassThrough gs_serialPortWrapper_Close "spw.port.Close" [] ["err"] := by
+  intro o env0 args rs fuel ha hr hf
+  obtain rfl := len0 ha
+  obtain ⟨r1, rfl⟩ := len1 hr
+  fwd_run [gs_serialPortWrapper_Close]
+
+/-- `serialPortWrapper.Write(txbuf)` forwards to `spw.port.Write` (one call, same argument, results
+    handed back) and never consults the deadline: the run is the same in EVERY environment
+    (`PassThrough` quantifies over `env0`), and no leaf the term reads mentions `deadline`.
+    `Close` forwards to `spw.port.Close`. -/
+theorem C07W_serial_write :
+    PassThrough gs_serialPortWrapper_Write "spw.port.Write" ["txbuf"] ["cnt", "err"] ∧
+    gsParams.lookup "serialPortWrapper.Write" = some ["txbuf"] ∧
+    (stmtLeaves gs_serialPortWrapper_Write).all (fun l => !hasSub l "deadline") = true ∧
+    (stmtTargets gs_serialPortWrapper_Write).all (fun l => !hasSub l "deadline") = true ∧
+    PassThrough gs_serialPortWrapper_Close "spw.port.Close" [] ["err"] :=
+  ⟨pt_serial_Write, by decide +kernel, by decide +kernel, by decide +kernel, pt_serial_Close⟩
+
+/-- who touches what (static, all paths): `spw.deadline` is assigned by `SetDeadline` only and read
+    by `Read` only (in the entry test, the FIRST statement of `Read`); `spw.port` is assigned by
+    `Open` only, from `serial.Open(&serial.Config{…})`. -/
+theorem C07W_serial_fields :
+    stmtTargets gs_serialPortWrapper_SetDeadline = ["spw.deadline"] ∧
+    stmtTargets gs_serialPortWrapper_Read = ["err", "cnt", "err", "err"] ∧
+    stmtTargets gs_serialPortWrapper_Write = ["cnt", "err"] ∧
+    stmtTargets gs_serialPortWrapper_Close = ["err"] ∧
+    stmtTargets gs_serialPortWrapper_Open = ["parity", "parity", "parity", "spw.port", "err"] ∧
+    (stmtLeaves gs_serialPortWrapper_Read).filter (fun l => hasSub l "deadline") =
+      ["time.Now().After(spw.deadline)"] ∧
+    (stmtLeaves gs_serialPortWrapper_Read).head? = some "time.Now().After(spw.deadline)" ∧
+    (stmtLeaves gs_serialPortWrapper_Open).filter (fun l => hasSub l "deadline") = [] ∧
+    (stmtLeaves gs_serialPortWrapper_Close).filter (fun l => hasSub l "deadline") = [] := by
+  decide +kernel
+
+/-- the port is opened by `serial.Open(&serial.Config{ …, Timeout: 10 * time.Millisecond, })`, the
+    only call of `Open`, whose first result is the only value `spw.port` ever gets:
+    `port.Read` is configured to return after at most 10 ms = 10 000 000 ns, the `δ` of
+    `Io.durOkSerial` used in Props/C07Ext.lean (`C07X_marginRtu_values`, `C07X_A_deadline_false_for_serial`) -/
+theorem C07W_serial_port_timeout :
+    (callTextsOfW gs_serialPortWrapper_Open).map
+        (fun c => (c.1, c.2.1, c.2.2.map (fun t => (t.bind (fun l => litField l "Timeout"))))) =
+      [(["spw.port", "err"], "serial.Open", [some "10 * time.Millisecond"])] ∧
+    goDurText? "10 * time.Millisecond" = some 10000000 := by
+  decide +kernel
+
+/-! ### the discipline `Io.durOkSerial` / `Io.okSerial` -/
+
+open Modbus.Io in
+/-- `time.Now().After(spw.deadline)` on the clock of the model: the armed deadline lies strictly
+    before `now`; with no deadline armed `spw.deadline` is the zero `time.Time` -/
+def lateAt (c : Io.Clock) : Bool :=
+  match c.deadline with
+  | none => true
+  | some D => decide (D < c.now)
+
+/-- what `io.ReadFull` sees of one `Read(buf)` with `len(buf) = want`: `err == nil` - `cnt` bytes
+    (possibly 0: a poll); `err != nil` - the read ended -/
+def readOpOf (want : Nat) (r : Res) : Io.Op :=
+  if Env.read r.env "err" = .sym "nil" then
+    .read want (match Env.read r.env "cnt" with | .int k => k.toNat | _ => 0)
+  else .readEnd want
+
+/-- number of (blocking) `spw.port.Read` calls of a run -/
+def portReads (r : Res) : Nat := (r.argsOf "spw.port.Read").length
+
+/-- duration of a run when each `spw.port.Read` lasts `portDur` (local computation takes no time,
+    as everywhere in the clocked model) -/
+def readDur (portDur : Nat) (r : Res) : Nat := portReads r * portDur
+
+/-- SERIAL DISCIPLINE. One `serialPortWrapper.Read` evaluated at the clock reading `c` (the entry
+    test `time.Now().After(spw.deadline)` = `lateAt c`), the port answering `(n, e)` after `portDur`:
+    (1) the run returns; it makes AT MOST ONE blocking `spw.port.Read`, and nothing else;
+    (2) entry test first: entered after the deadline it makes no call and returns
+        `(0, ErrRequestTimedOut)` - duration 0, a `readEnd`;
+    (3) entered at or before the deadline it makes exactly one port read and returns its count,
+        with `serial.ErrTimeout` masked to `nil`;
+    (4) a masked port timeout `(0, serial.ErrTimeout)` is a zero-byte read with nil error - the
+        `Op.read want 0` polls of `Io.rfTraceSerial`;
+    (5) the op and the duration of the run satisfy `Io.okSerial ε δ wmax` = `durOkSerial ∧ outcomeOk`
+        under the ONLY runtime assumption `portDur ≤ δ` ("`port.Read` returns within its configured
+        timeout", `δ` = 10 ms by `C07W_serial_port_timeout`). -/
+theorem C07W_serial_discipline (ε δ wmax want portDur : Nat) (c : Io.Clock) (o : Oracle) (rx : Val)
+    (n : Nat) (e : String) (fuel : Nat) (hf : depth gs_serialPortWrapper_Read ≤ fuel)
+    (hR : o "spw.port.Read" [rx] = some [.int n, .sym e]) (hδ : portDur ≤ δ) :
+    let r := exec o fuel gs_serialPortWrapper_Read (serialReadEnv (lateAt c) rx)
+    r.how = .returned ∧
+    (r.calls = [] ∨ r.calls = [("spw.port.Read", [rx])]) ∧
+    (lateAt c = true → r.calls = [] ∧ readDur portDur r = 0 ∧
+      serialReadResult r = (.int 0, .sym "ErrRequestTimedOut") ∧ readOpOf want r = .readEnd want) ∧
+    (lateAt c = false → r.calls = [("spw.port.Read", [rx])] ∧ readDur portDur r = portDur ∧
+      serialReadResult r = (.int n, .sym (if e = "serial.ErrTimeout" then "nil" else e))) ∧
+    (lateAt c = false → n = 0 → e = "serial.ErrTimeout" →
+      readOpOf want r = .read want 0 ∧ (readOpOf want r).isPoll = true) ∧
+    Io.okSerial ε δ wmax c (readOpOf want r) (readDur portDur r) := by
+  intro r
+  cases hl : lateAt c
+  · -- not late
+    have hr : r = ⟨(if e = "serial.ErrTimeout" then [("err", .sym "nil")] else []) ++
+          ("err", .sym e) :: ("cnt", .int n) :: serialReadEnv false rx,
+        .returned, [("spw.port.Read", [rx])]⟩ := by
+      show exec o fuel gs_serialPortWrapper_Read (serialReadEnv (lateAt c) rx) = _
+      rw [hl]; exact serial_read_early o rx (.int n) e fuel hf hR
+    have hdur : readDur portDur r = portDur := by
+      rw [hr]; simp [readDur, portReads, Res.argsOf]
+    have hres : serialReadResult r = (.int n, .sym (if e = "serial.ErrTimeout" then "nil" else e)) := by
+      rw [hr]
+      by_cases ht : e = "serial.ErrTimeout"
+      · simp only [ht, if_true]; rfl
+      · simp only [ht, if_false]; rfl
+    have hop : readOpOf want r =
+        if e = "nil" ∨ e = "serial.ErrTimeout" then .read want n else .readEnd want := by
+      have h1 : Env.read r.env "err" = .sym (if e = "serial.ErrTimeout" then "nil" else e) :=
+        congrArg Prod.snd hres
+      have h2 : Env.read r.env "cnt" = .int n := congrArg Prod.fst hres
+      unfold readOpOf
+      rw [h1, h2]
+      by_cases ht : e = "serial.ErrTimeout"
+      · simp [ht]
+      · by_cases hn : e = "nil"
+        · simp [hn]
+        · simp [ht, hn]
+    refine ⟨by rw [hr], Or.inr (by rw [hr]), (fun h => nomatch h),
+      fun _ => ⟨by rw [hr], hdur, hres⟩, fun _ hn he => ?_, ?_⟩
+    · rw [hop, hn, he]; simp [Io.Op.isPoll]
+    · -- okSerial
+      rw [hdur, hop]
+      obtain ⟨now, dl⟩ := c
+      cases dl with
+      | none => simp [lateAt] at hl
+      | some D =>
+        have hle : now ≤ D := by
+          simp only [lateAt, decide_eq_false_iff_not, Nat.not_lt] at hl; exact hl
+        split <;> simp [Io.okSerial, Io.durOkSerial, Io.outcomeOk, hle, hδ]
+  · -- late
+    have hr : r = ⟨("err", .sym "ErrRequestTimedOut") :: serialReadEnv true rx, .returned, []⟩ := by
+      show exec o fuel gs_serialPortWrapper_Read (serialReadEnv (lateAt c) rx) = _
+      rw [hl]; exact serial_read_late o rx fuel hf
+    have hdur : readDur portDur r = 0 := by
+      rw [hr]; simp [readDur, portReads, Res.argsOf]
+    have hop : readOpOf want r = .readEnd want := by rw [hr]; rfl
+    refine ⟨by rw [hr], Or.inl (by rw [hr]),
+      fun _ => ⟨by rw [hr], hdur, by rw [hr]; rfl, hop⟩, (fun h => nomatch h), (fun h => nomatch h), ?_⟩
+    rw [hdur, hop]
+    obtain ⟨now, dl⟩ := c
+    cases dl with
+    | none => simp [Io.okSerial, Io.durOkSerial, Io.outcomeOk]
+    | some D =>
+      have hlt : ¬ now ≤ D := by
+        simp only [lateAt, decide_eq_true_eq] at hl; omega
+      simp [Io.okSerial, Io.durOkSerial, Io.outcomeOk, hlt]
+
+theorem readOpOf_isRead (want : Nat) (r : Res) : (readOpOf want r).isRead = true := by
+  unfold readOpOf; split <;> rfl
+
+/-- plugged into the model: `C07X_serial_read_step` (Props/C07Ext.lean) applied to the op and the
+    duration OF THE EVALUATED RUN - entered not after the deadline `D` the call lasts at most `δ`,
+    entered after it it returns at once and is not a `read` -/
+theorem C07W_serial_step_of_model (ε δ wmax want portDur t D : Nat) (o : Oracle) (rx : Val)
+    (n : Nat) (e : String) (fuel : Nat) (hf : depth gs_serialPortWrapper_Read ≤ fuel)
+    (hR : o "spw.port.Read" [rx] = some [.int n, .sym e]) (hδ : portDur ≤ δ) :
+    let r := exec o fuel gs_serialPortWrapper_Read (serialReadEnv (lateAt ⟨t, some D⟩) rx)
+    (t ≤ D → readDur portDur r ≤ δ) ∧
+    (D < t → readDur portDur r = 0 ∧ ∃ k, readOpOf want r = .readEnd k) := by
+  intro r
+  exact C07X_serial_read_step ε δ wmax t D _ _ (readOpOf_isRead want r)
+    (C07W_serial_discipline ε δ wmax want portDur ⟨t, some D⟩ o rx n e fuel hf hR hδ).2.2.2.2.2
+
+/-- conversely the two clauses of `durOkSerial` for reads are attained by the code: a read entered
+    at the deadline itself (`now = D`, not `After`) still blocks for the whole port timeout -/
+example : lateAt ⟨100, some 100⟩ = false ∧ lateAt ⟨101, some 100⟩ = true ∧ lateAt ⟨5, none⟩ = true := by
+  decide
+
+/-! ## 3. `discard` -/
+
+/-- environment of `discard(link)`: the parameter and the two opaque leaves -/
+def discardEnv (lk bufV dlV : Val) (env0 : Env) : Env :=
+  ("link", lk) :: ("make([]byte, 1024)", bufV) :: ("time.Now().Add(500 * time.Microsecond)", dlV) :: env0
+
+/-- `discard(link)`: `rxbuf = make([]byte, 1024)`; ONE `link.SetDeadline [now + 500 µs]`; ONE
+    `io.ReadFull [link, rxbuf]`; return. The results of both calls are bound to nothing: whatever
+    they are (`sdRes`, `rfRes` arbitrary) the final environment and the way the run ends are the
+    same - the outcome is ignored. -/
+theorem C07W_discard (o : Oracle) (env0 : Env) (lk bufV dlV : Val) (sdRes rfRes : List Val)
+    (fuel : Nat) (hf : depth gs_discard ≤ fuel)
+    (hS : o "link.SetDeadline" [dlV] = some sdRes)
+    (hR : o "io.ReadFull" [lk, bufV] = some rfRes) :
+    exec o fuel gs_discard (discardEnv lk bufV dlV env0) =
+      ⟨("rxbuf", bufV) :: discardEnv lk bufV dlV env0, .returned,
+        [("link.SetDeadline", [dlV]), ("io.ReadFull", [lk, bufV])]⟩ := by
+  rw [exec_at _ _ _ 4 _ (by decide) (by decide) hf]
+  go_eval [gs_discard, discardEnv, hS, hR, write_def]
+
+/-- the constants of `discard`, read off the generated term: the deadline argument is the leaf
+    `time.Now().Add(500 * time.Microsecond)` = now + 500 000 ns, the buffer is `make([]byte, 1024)`;
+    they are the `sd:500000` and `re:1024` / `r:1024:…` events of the flush step of the I/O trace
+    model (`Io.resyncOps`) and `Rtu.discardLen` -/
+theorem C07W_discard_constants :
+    callTextsOfW gs_discard =
+      [([], "link.SetDeadline", [some "time.Now().Add(500 * time.Microsecond)"]),
+       ([], "io.ReadFull", [some "link", some "rxbuf"])] ∧
+    assignedTexts "rxbuf" gs_discard = [some "make([]byte, 1024)"] ∧
+    (addArg? "time.Now().Add(500 * time.Microsecond)").bind goDurText? = some 500000 ∧
+    (makeLen? "make([]byte, 1024)").bind goIntText? = some 1024 ∧
+    Rtu.discardLen = 1024 ∧
+    (∀ rate remaining, Io.resyncOps rate remaining =
+      [.sleep (Timing.maxRTUFrameLength * Timing.t1 rate), .setDeadline 500000] ++
+        Io.rfTrace 1024 remaining) ∧
+    Io.showTrace (Io.resyncOps 19200 0).tail = "sd:500000 re:1024" :=
+  ⟨by decide +kernel, by decide +kernel, by decide +kernel, by decide +kernel, rfl,
+   fun _ _ => rfl, by decide +kernel⟩
+
+/-- sensitivity: a second `io.ReadFull`, or a deadline of another leaf, changes the call log -/
+example : (exec (fun _ _ => some []) 6
+      (.seq (.bindCall [] "io.ReadFull" [(.var "link" .other), (.var "rxbuf" .other)]) gs_discard)
+      (discardEnv (.sym "L") (.sym "B") (.sym "D") [])).calls ≠
+    [("link.SetDeadline", [.sym "D"]), ("io.ReadFull", [.sym "L", .sym "B"])] := by decide +kernel
+example : (exec (fun _ _ => some []) 6 gs_discard
+      (discardEnv (.sym "L") (.sym "B") (.sym "D") [])).calls =
+    [("link.SetDeadline", [.sym "D"]), ("io.ReadFull", [.sym "L", .sym "B"])] := by decide +kernel
+
 end Modbus.Props.C07
+
+#print axioms Modbus.Props.C07.C07W_tls_forwards
+#print axioms Modbus.Props.C07.C07W_udp_forwards
+#print axioms Modbus.Props.C07.C07W_sensitive_setDeadline_slip
+#print axioms Modbus.Props.C07.C07W_tls_write
+#print axioms Modbus.Props.C07.C07W_tls_write_no_close
+#print axioms Modbus.Props.C07.C07W_serial_read
+#print axioms Modbus.Props.C07.C07W_serial_setDeadline
+#print axioms Modbus.Props.C07.C07W_serial_write
+#print axioms Modbus.Props.C07.C07W_serial_fields
+#print axioms Modbus.Props.C07.C07W_serial_port_timeout
+#print axioms Modbus.Props.C07.C07W_serial_discipline
+#print axioms Modbus.Props.C07.C07W_serial_step_of_model
+#print axioms Modbus.Props.C07.C07W_sensitive_setDeadline_slip_udp
+#print axioms Modbus.Props.C07.C07W_discard
+#print axioms Modbus.Props.C07.C07W_discard_constants
